@@ -68,7 +68,7 @@ func genC14(r *Rng, tier string) *Scenario {
 	switch c := r.Intn(100); {
 	case c < 45:
 		sc.Family = "string"
-		g := &Gen{R: r, Prefix: "ST", ObjBias: 60, FailBias: 0}
+		g := &Gen{R: r, Prefix: "ST", ObjBias: 60, FailBias: 0, ObjFail: true}
 		if r.Chance(40) {
 			g.FailBias = 45
 		}
@@ -83,6 +83,12 @@ func genC14(r *Rng, tier string) *Scenario {
 				p = "@dump(" + g.Expr("obj", 2) + ")"
 			case k < 6:
 				p = "{{ [" + g.Expr("obj", 1) + ", " + g.Expr("obj", 1) + "] }}"
+			case k < 7:
+				// shuffle() and rand() may vary, but only THEIR results: the receiver and everything
+				// else must not
+				p = Pick(r, []string{"{{ a0.shuffle().len() }}{{ a0 }}{{ a0.join('-') }}", "{{ a1.shuffle().len() }}@each(x in a1)[{{ x }}]@end", "{{ (a0.rand() == a0.rand()) ? 7 : 7 }}{{ a0 }}", "{{ t9 = [5, 6, 7, 8] }}{{ t9.shuffle().len() }}{{ t9 }}"})
+			case k < 8 && g.FailBias > 0:
+				p = "{{ " + g.FailExpr() + " }}"
 			default:
 				p = g.Stmt(2)
 			}
@@ -116,7 +122,7 @@ func genC14(r *Rng, tier string) *Scenario {
 		sc.Ops = []Op{{Kind: "evalstr", Src: strings.Join(sc.Parts, ""), Data: data}}
 	default:
 		sc.Family = "tree"
-		o := TreeOpts{ObjBias: 50}
+		o := TreeOpts{ObjBias: 50, Debug: r.Chance(50), ObjFail: true}
 		if r.Chance(30) {
 			o.FailBias = 40
 		}
